@@ -530,9 +530,18 @@ class ProcessingRule(HookableMixin):
         num_inline_urls = 0
         num_linked_urls = 0
 
+        # A document that declares "nofollow" declares it for all of its
+        # links, whichever scraper finds them (a page without a html start
+        # tag, or with ".js" in its path, is read by the JavaScript scraper
+        # as well).
+        no_follow = any(
+            scrape_result and scrape_result.get('robots_no_follow')
+            for scrape_result in demux_info.values()
+        )
+
         for scraper, scrape_result in demux_info.items():
             new_inline, new_linked = self._process_scrape_info(
-                scraper, scrape_result, item_session
+                scraper, scrape_result, item_session, no_follow=no_follow
             )
             num_inline_urls += new_inline
             num_linked_urls += new_linked
@@ -552,7 +561,8 @@ class ProcessingRule(HookableMixin):
 
     def _process_scrape_info(self, scraper: BaseScraper,
                              scrape_result: ScrapeResult,
-                             item_session: ItemSession):
+                             item_session: ItemSession,
+                             no_follow: bool=False):
         '''Collect the URLs from the scrape info dict.'''
         if not scrape_result:
             return 0, 0
@@ -561,6 +571,9 @@ class ProcessingRule(HookableMixin):
         num_linked = 0
 
         for link_context in scrape_result.link_contexts:
+            if no_follow and not link_context.inline:
+                continue
+
             url_info = self.parse_url(link_context.link)
 
             if not url_info:
